@@ -45,10 +45,13 @@ class Alg:
         self.direct = direct       # direct(p) -> True: call the algorithm with a binner, not through the adaptor
         self.unmodelled = unmodelled   # unmodelled(case, fmt) -> True: no strict comparison (the judges still apply)
 
-    def request(self, case, ids=None, contents=True):
+    def request(self, case, ids=None, contents=True, outtype=None):
+        """outtype: ask the model for that output type (prtpy/outputtypes.py is part of the model: Prtpy.Out);
+        None: the full bins-array"""
         p = case["p"]
         c = f" contents={int(contents)}" if self.needs_contents else ""
-        return f"{self.op} {self.param}={p[self.param]}{c} items={f_items(case['vals'], ids)}{self.req_extra(p)}"
+        o = f" out={outtype}" if (outtype and not self.relation) else ""
+        return f"{self.op} {self.param}={p[self.param]}{c} items={f_items(case['vals'], ids)}{self.req_extra(p)}{o}"
 
     def call_impl(self, case, fmt, outtype, names, mutation=None):
         """mutation: optional list; a description is appended when the call changed the object it was given"""
